@@ -1,0 +1,6 @@
+//go:build !verif
+
+package server
+
+// verifPoint is no-op in ordinary builds. See verif_on.go
+func verifPoint(name string) {}
